@@ -38,7 +38,7 @@ type Env struct {
 	Bcast   bool
 	Bytes   []byte // MarshalBinary of the message; decoded afresh at delivery
 	Seq     int
-	Release int  // not deliverable before this step (partition / delay)
+	Release int    // not deliverable before this step (partition / delay)
 	Kind    string // "", "dup", "stale", "foreign", "tamper"
 	Session string
 	Node    *Node // target node (lets several sessions share one network)
